@@ -492,6 +492,12 @@ Proof.
   - split; intros (x & H); discriminate.
 Qed.
 
+(* ... which, with paged_iff_code, says when a client method returns a pager in terms of the two shapes *)
+Lemma wrap_iff_code_paged (b : bool) (m : rpc) :
+  uniq (r_req m) -> uniq (r_resp m) ->
+  ((exists w, client_wrap b m = Some w) <-> code_paged (r_req m) (r_resp m)).
+Proof. intros Hq Hr. rewrite wrap_iff_paged. now apply paged_iff_code. Qed.
+
 Lemma pagers_module_classes (with_async : bool) (ms : list rpc) :
   length (pagers_module with_async ms) =
   (if with_async then 2 else 1) * length (filter (fun m => is_paged (r_req m) (r_resp m)) ms).
